@@ -197,7 +197,7 @@ theorem map_dropCR_id (xs : List Bytes) (hx : ∀ l ∈ xs, l.getLast? ≠ some 
 theorem scanLines_unlines (ls : List Bytes)
     (h : ∀ l ∈ ls, '\n' ∉ l) (hcr : ∀ l ∈ ls, l.getLast? ≠ some '\r') :
     scanLines (unlines ls) = ls := by
-  unfold scanLines
+  unfold scanLines rawLines
   rw [splitNl_unlines ls h]
   have h1 : (ls ++ [([] : Bytes)]).getLast? = some [] := by simp
   simp only [h1, List.dropLast_concat]
@@ -212,7 +212,7 @@ theorem dropCR_noNl (l : Bytes) (h : '\n' ∉ l) : '\n' ∉ dropCR l := by
 /-- no scanned line contains a line feed -/
 theorem scanLines_noNl (b : Bytes) : ∀ l ∈ scanLines b, '\n' ∉ l := by
   intro l hl
-  unfold scanLines at hl
+  unfold scanLines rawLines at hl
   simp only [List.mem_map] at hl
   obtain ⟨l0, hl0, rfl⟩ := hl
   apply dropCR_noNl
